@@ -1,6 +1,588 @@
-//! (stub) — not generated yet.
-use super::{GenFile, Repo};
+//! `Gen/Atomics.lean`: the bodies of `impl Kind for Arc` (`src/smart.rs`) as lists of `AStep`
+//! (`HipVerif/Model/AtomicsTy.lean`).
+//!
+//! Pure template matching on the `syn` AST. Every statement and every sub-expression of the
+//! translated methods must match one of the templates below; anything else is an `Err`
+//! (fail closed: a weakened source must come out as a faithful description or not at all).
+use std::collections::HashMap;
 
-pub fn generate(_repo: &Repo) -> Result<Vec<GenFile>, String> {
-    Ok(vec![])
+use proc_macro2::Span;
+use syn::spanned::Spanned;
+use syn::{BinOp, Block, Expr, ExprMethodCall, ExprWhile, ImplItem, Item, ItemImpl, Lit, Member, Pat, Stmt, TraitItem};
+
+use super::repo::{loc, SrcFile};
+use super::{GenFile, Repo, HEADER};
+
+type R<T> = Result<T, String>;
+const FILE: &str = "src/smart.rs";
+
+struct Row {
+    text: String,
+    loc: String,
+}
+
+/// Per-method translation state.
+struct Cx<'a> {
+    f: &'a SrcFile,
+    /// `let name = Ordering::X;`
+    ords: HashMap<String, &'static str>,
+    /// `let name = &self.0;`
+    alias: Option<String>,
+    /// source name of the register `old` (None: nothing read yet, or read inline without a name)
+    reg: Option<String>,
+    /// `let name = <reg> + k;` (valid until the register changes)
+    news: HashMap<String, u64>,
+    rows: Vec<Row>,
+}
+
+fn ident_of(e: &Expr) -> Option<String> {
+    match e {
+        Expr::Path(p) if p.attrs.is_empty() && p.qself.is_none() => p.path.get_ident().map(|i| i.to_string()),
+        _ => None,
+    }
+}
+
+/// Segments of a plain path expression (no generic arguments, no qself).
+fn segs(e: &Expr) -> Option<Vec<String>> {
+    match e {
+        Expr::Path(p) if p.attrs.is_empty() && p.qself.is_none() => {
+            p.path.segments.iter().map(|s| s.arguments.is_none().then(|| s.ident.to_string())).collect()
+        }
+        _ => None,
+    }
+}
+
+fn last2(e: &Expr) -> Option<(String, String)> {
+    let s = segs(e)?;
+    (s.len() >= 2).then(|| (s[s.len() - 2].clone(), s[s.len() - 1].clone()))
+}
+
+fn int(e: &Expr) -> Option<u64> {
+    match e {
+        Expr::Lit(l) if l.attrs.is_empty() => match &l.lit {
+            Lit::Int(i) if i.suffix().is_empty() || i.suffix() == "usize" => i.base10_parse().ok(),
+            _ => None,
+        },
+        _ => None,
+    }
+}
+
+fn bin(e: &Expr) -> Option<(&Expr, &BinOp, &Expr)> {
+    match e {
+        Expr::Binary(b) if b.attrs.is_empty() => Some((&b.left, &b.op, &b.right)),
+        _ => None,
+    }
+}
+
+fn is_usize_max(e: &Expr) -> bool {
+    segs(e).map_or(false, |s| s == ["usize", "MAX"])
+}
+
+/// `{ e }` / `{ e; }` -> `e`
+fn unbrace(e: &Expr) -> &Expr {
+    if let Expr::Block(b) = e {
+        if let (true, None, [Stmt::Expr(inner, _)]) = (b.attrs.is_empty(), &b.label, &b.block.stmts[..]) {
+            return inner;
+        }
+    }
+    e
+}
+
+impl<'a> Cx<'a> {
+    fn new(f: &'a SrcFile) -> Self {
+        Cx { f, ords: HashMap::new(), alias: None, reg: None, news: HashMap::new(), rows: vec![] }
+    }
+    fn bad<T>(&self, what: &str, sp: Span) -> R<T> {
+        Err(format!("Gen/Atomics: unsupported {what} at {}", loc(self.f, sp)))
+    }
+    fn push(&mut self, text: String, sp: Span) {
+        self.rows.push(Row { text, loc: loc(self.f, sp) });
+    }
+    fn is_reg(&self, e: &Expr) -> bool {
+        self.reg.is_some() && ident_of(e) == self.reg
+    }
+    /// A fresh `let name`: shadows every earlier meaning of `name`.
+    fn unbind(&mut self, name: &str) {
+        self.ords.remove(name);
+        self.news.remove(name);
+        if self.alias.as_deref() == Some(name) {
+            self.alias = None;
+        }
+        if self.reg.as_deref() == Some(name) {
+            self.reg = None;
+        }
+    }
+    fn set_reg(&mut self, name: Option<String>) {
+        self.reg = name;
+        self.news.clear();
+    }
+
+    fn ord(&self, e: &Expr) -> R<&'static str> {
+        let name = match (last2(e), ident_of(e)) {
+            (Some((o, x)), _) if o == "Ordering" => x,
+            (_, Some(id)) => return self.ords.get(&id).copied().map_or_else(|| self.bad("ordering", e.span()), Ok),
+            _ => return self.bad("ordering", e.span()),
+        };
+        Ok(match name.as_str() {
+            "Relaxed" => ".relaxed",
+            "Release" => ".release",
+            "Acquire" => ".acquire",
+            "AcqRel" => ".acqRel",
+            "SeqCst" => ".seqCst",
+            _ => return self.bad("ordering", e.span()),
+        })
+    }
+
+    fn bound(&self, e: &Expr) -> R<String> {
+        if let Some(n) = int(e) {
+            return Ok(format!("(.lit {n})"));
+        }
+        if is_usize_max(e) {
+            return Ok("(.usizeMaxMinus 0)".into());
+        }
+        if let Some((l, BinOp::Sub(_), r)) = bin(e) {
+            if let (true, Some(k)) = (is_usize_max(l), int(r)) {
+                return Ok(format!("(.usizeMaxMinus {k})"));
+            }
+        }
+        self.bad("constant", e.span())
+    }
+
+    fn is_self0(e: &Expr) -> bool {
+        match e {
+            Expr::Field(f) if f.attrs.is_empty() => {
+                ident_of(&f.base).as_deref() == Some("self") && matches!(&f.member, Member::Unnamed(i) if i.index == 0)
+            }
+            _ => false,
+        }
+    }
+
+    /// A method call whose receiver is the atomic (`self.0` or its alias).
+    fn atomic_call<'e>(&self, e: &'e Expr) -> Option<&'e ExprMethodCall> {
+        match e {
+            Expr::MethodCall(mc) if mc.attrs.is_empty() && mc.turbofish.is_none() => {
+                let rcv = &*mc.receiver;
+                let aliased = self.alias.is_some() && ident_of(rcv) == self.alias;
+                (Self::is_self0(rcv) || aliased).then_some(mc)
+            }
+            _ => None,
+        }
+    }
+
+    /// `load(ord)` / `fetch_sub(n, ord)` / `fetch_add(n, ord)`: the steps that set the register.
+    fn read_op(&self, mc: &ExprMethodCall) -> R<String> {
+        let args: Vec<&Expr> = mc.args.iter().collect();
+        match (mc.method.to_string().as_str(), &args[..]) {
+            ("load", [o]) => Ok(format!(".load {}", self.ord(o)?)),
+            (m @ ("fetch_sub" | "fetch_add"), [n, o]) => {
+                let Some(n) = int(n) else { return self.bad("fetch operand", n.span()) };
+                Ok(format!(".{} {n} {}", if m == "fetch_sub" { "rmwSub" } else { "rmwAdd" }, self.ord(o)?))
+            }
+            (m, _) => self.bad(&format!("atomic operation `{m}`"), mc.span()),
+        }
+    }
+
+    /// `<reg>`, `<reg> + k`, `<reg> - k`, or a `let new = <reg> + k` local: (is_minus, k)
+    fn reg_offset(&self, e: &Expr) -> Option<(bool, u64)> {
+        if self.is_reg(e) {
+            return Some((false, 0));
+        }
+        if let Some(k) = ident_of(e).and_then(|id| self.news.get(&id).copied()) {
+            return Some((false, k));
+        }
+        match bin(e)? {
+            (l, BinOp::Add(_), r) if self.is_reg(l) => Some((false, int(r)?)),
+            (l, BinOp::Sub(_), r) if self.is_reg(l) => Some((true, int(r)?)),
+            _ => None,
+        }
+    }
+
+    /// `fence(ord);` or `A.store(<reg> ± k, ord);` as a `Simple`; `None` if `s` is something else.
+    fn simple(&self, s: &Stmt) -> R<Option<(String, Span)>> {
+        let Stmt::Expr(e, Some(_)) = s else { return Ok(None) };
+        if let Expr::Call(c) = e {
+            if let (true, Some("fence"), Some(o), 1) =
+                (c.attrs.is_empty(), ident_of(&c.func).as_deref(), c.args.first(), c.args.len())
+            {
+                return Ok(Some((format!(".fence {}", self.ord(o)?), e.span())));
+            }
+        }
+        let Some(mc) = self.atomic_call(e) else { return Ok(None) };
+        let args: Vec<&Expr> = mc.args.iter().collect();
+        match (mc.method.to_string().as_str(), &args[..]) {
+            ("store", [v, o]) => match self.reg_offset(v) {
+                Some((minus, k)) => {
+                    let c = if minus { "storeOldMinus" } else { "storeOldPlus" };
+                    Ok(Some((format!(".{c} {k} {}", self.ord(o)?), e.span())))
+                }
+                None => self.bad("stored value", v.span()),
+            },
+            (m, _) => self.bad(&format!("atomic operation `{m}`"), e.span()),
+        }
+    }
+
+    /// A returned value that needs no further step.
+    fn ret(&self, e: &Expr) -> R<String> {
+        if let Some((t, v)) = last2(e) {
+            match (t.as_str(), v.as_str()) {
+                ("UpdateResult", "Done") => return Ok(".done".into()),
+                ("UpdateResult", "Overflow") => return Ok(".overflow".into()),
+                _ => {}
+            }
+        }
+        if let Expr::Lit(l) = e {
+            if let (true, Lit::Bool(b)) = (l.attrs.is_empty(), &l.lit) {
+                return Ok(format!("(.bool {})", b.value));
+            }
+        }
+        if let Some((l, BinOp::Add(_), r)) = bin(e) {
+            if let (true, Some(k)) = (self.is_reg(l), int(r)) {
+                return Ok(format!("(.oldPlus {k})"));
+            }
+        }
+        self.bad("return value", e.span())
+    }
+
+    /// `r` (tail) or `return r;` as the last statement of a block.
+    fn tail<'s>(&self, s: &'s Stmt) -> Option<&'s Expr> {
+        match s {
+            Stmt::Expr(Expr::Return(r), Some(_)) if r.attrs.is_empty() => r.expr.as_deref(),
+            Stmt::Expr(Expr::Return(_), None) => None,
+            Stmt::Expr(e, None) => Some(e),
+            _ => None,
+        }
+    }
+
+    /// A branch arm: `{ simple; …; ret }`
+    fn arm(&self, b: &Block) -> R<(String, String)> {
+        let Some((last, init)) = b.stmts.split_last() else { return self.bad("empty branch arm", b.span()) };
+        let mut simples = vec![];
+        for s in init {
+            match self.simple(s)? {
+                Some((t, _)) => simples.push(t),
+                None => return self.bad("statement in branch arm", s.span()),
+            }
+        }
+        let Some(r) = self.tail(last) else { return self.bad("end of branch arm", last.span()) };
+        Ok((format!("[{}]", simples.join(", ")), self.ret(r)?))
+    }
+
+    fn branch(&mut self, i: &syn::ExprIf) -> R<()> {
+        let Some((l, op, r)) = bin(&i.cond) else { return self.bad("condition", i.cond.span()) };
+        let cmp = match op {
+            BinOp::Eq(_) => ".eq",
+            BinOp::Ne(_) => ".ne",
+            BinOp::Lt(_) => ".lt",
+            BinOp::Le(_) => ".le",
+            _ => return self.bad("comparison", i.cond.span()),
+        };
+        if let Some(mc) = self.atomic_call(l) {
+            let op = self.read_op(mc)?;
+            self.push(op, mc.span());
+            self.set_reg(None);
+        } else if !self.is_reg(l) {
+            return self.bad("condition operand", l.span());
+        }
+        let bound = self.bound(r)?;
+        let els = match i.else_branch.as_ref().map(|(_, e)| &**e) {
+            Some(Expr::Block(b)) if b.attrs.is_empty() && b.label.is_none() => &b.block,
+            _ => return self.bad("`if` without a plain `else` block", i.if_token.span),
+        };
+        let (ts, tr) = self.arm(&i.then_branch)?;
+        let (es, er) = self.arm(els)?;
+        self.push(format!(".branch {cmp} {bound} {ts} {tr} {es} {er}"), i.if_token.span);
+        Ok(())
+    }
+
+    fn cas_loop(&mut self, w: &ExprWhile) -> R<()> {
+        let sp = w.while_token.span;
+        let bound = match bin(&w.cond) {
+            Some((l, BinOp::Lt(_), r)) if w.label.is_none() && self.is_reg(l) => self.bound(r)?,
+            _ => return self.bad("loop condition", w.cond.span()),
+        };
+        let is_next = |cx: &Self, e: &Expr| matches!(bin(e), Some((l, BinOp::Add(_), r)) if cx.is_reg(l) && int(r) == Some(1));
+        let (new, m) = match &w.body.stmts[..] {
+            [Stmt::Expr(Expr::Match(m), _)] => (None, m),
+            [Stmt::Local(l), Stmt::Expr(Expr::Match(m), _)] => {
+                let (name, init) = match (&l.pat, &l.init) {
+                    (Pat::Ident(p), Some(i))
+                        if l.attrs.is_empty() && p.by_ref.is_none() && p.mutability.is_none() && p.subpat.is_none() && i.diverge.is_none() =>
+                    {
+                        (p.ident.to_string(), &*i.expr)
+                    }
+                    _ => return self.bad("loop statement", l.span()),
+                };
+                if !is_next(self, init) || Some(&name) == self.reg.as_ref() || self.ords.contains_key(&name) || Some(&name) == self.alias.as_ref() {
+                    return self.bad("loop statement", l.span());
+                }
+                (Some(name), m)
+            }
+            _ => return self.bad("loop body", w.body.span()),
+        };
+        let Some(mc) = self.atomic_call(&m.expr) else { return self.bad("loop `match` scrutinee", m.expr.span()) };
+        let weak = match mc.method.to_string().as_str() {
+            "compare_exchange_weak" => true,
+            "compare_exchange" => false,
+            o => return self.bad(&format!("atomic operation `{o}`"), mc.span()),
+        };
+        let args: Vec<&Expr> = mc.args.iter().collect();
+        let [cur, nxt, succ, fail] = &args[..] else { return self.bad("compare_exchange arguments", mc.span()) };
+        let nxt_ok = is_next(self, nxt) || (new.is_some() && ident_of(nxt) == new);
+        if !self.is_reg(cur) || !nxt_ok {
+            return self.bad("compare_exchange arguments", mc.span());
+        }
+        let (succ, fail) = (self.ord(succ)?, self.ord(fail)?);
+        let (mut ok, mut err) = (false, false);
+        for a in &m.arms {
+            let bad_arm = || self.bad("loop `match` arm", a.span());
+            let (ctor, inner) = match &a.pat {
+                Pat::TupleStruct(t) if t.qself.is_none() && t.elems.len() == 1 && a.guard.is_none() && a.attrs.is_empty() => {
+                    (t.path.get_ident().map(|i| i.to_string()), &t.elems[0])
+                }
+                _ => return bad_arm(),
+            };
+            match (ctor.as_deref(), inner, unbrace(&a.body)) {
+                (Some("Ok"), Pat::Wild(_), Expr::Return(r)) if !ok && r.expr.as_ref().map_or(false, |e| self.ret(e).ok().as_deref() == Some(".done")) => {
+                    ok = true
+                }
+                (Some("Err"), Pat::Ident(p), Expr::Assign(asg))
+                    if !err
+                        && p.by_ref.is_none()
+                        && p.subpat.is_none()
+                        && Some(p.ident.to_string()) != self.reg
+                        && self.is_reg(&asg.left)
+                        && ident_of(&asg.right) == Some(p.ident.to_string()) =>
+                {
+                    err = true
+                }
+                _ => return bad_arm(),
+            }
+        }
+        if !(ok && err && m.arms.len() == 2) {
+            return self.bad("loop `match` arms", m.span());
+        }
+        self.push(format!(".casLoop {weak} {bound} {succ} {fail}"), sp);
+        self.news.clear();
+        Ok(())
+    }
+
+    fn local(&mut self, l: &syn::Local) -> R<()> {
+        let (p, init) = match (&l.pat, &l.init) {
+            (Pat::Ident(p), Some(i)) if l.attrs.is_empty() && p.attrs.is_empty() && p.by_ref.is_none() && p.subpat.is_none() && i.diverge.is_none() => {
+                (p, &*i.expr)
+            }
+            _ => return self.bad("`let`", l.span()),
+        };
+        let (name, is_mut) = (p.ident.to_string(), p.mutability.is_some());
+        if let Some(mc) = self.atomic_call(init) {
+            let op = self.read_op(mc)?;
+            self.push(op, mc.span());
+            self.unbind(&name);
+            self.set_reg(Some(name));
+            return Ok(());
+        }
+        if is_mut {
+            return self.bad("`let mut`", l.span());
+        }
+        if matches!(last2(init), Some((o, _)) if o == "Ordering") {
+            let o = self.ord(init)?;
+            self.unbind(&name);
+            self.ords.insert(name, o);
+        } else if matches!(init, Expr::Reference(r) if r.attrs.is_empty() && r.mutability.is_none() && Self::is_self0(&r.expr)) {
+            self.unbind(&name);
+            self.alias = Some(name);
+        } else if let Some((false, k)) = self.reg_offset(init).filter(|_| bin(init).is_some()) {
+            self.unbind(&name);
+            self.news.insert(name, k);
+        } else {
+            return self.bad("`let` initialiser", init.span());
+        }
+        Ok(())
+    }
+
+    /// A whole method body.
+    fn body(mut self, b: &Block) -> R<Vec<Row>> {
+        for (n, s) in b.stmts.iter().enumerate() {
+            let last = n + 1 == b.stmts.len();
+            if let Some((t, sp)) = self.simple(s)? {
+                self.push(format!(".simple ({t})"), sp);
+                continue;
+            }
+            match s {
+                Stmt::Local(l) => self.local(l)?,
+                Stmt::Expr(Expr::While(w), _) if w.attrs.is_empty() => self.cas_loop(w)?,
+                Stmt::Expr(Expr::If(i), None) if last && i.attrs.is_empty() => {
+                    self.branch(i)?;
+                    return Ok(self.rows);
+                }
+                _ if last && self.tail(s).is_some() => {
+                    let e = self.tail(s).unwrap();
+                    // `A.load(ord) + k`: read and return in one expression
+                    if let Some((l, BinOp::Add(_), r)) = bin(e) {
+                        if let (Some(mc), Some(k)) = (self.atomic_call(l), int(r)) {
+                            let op = self.read_op(mc)?;
+                            self.push(op, mc.span());
+                            self.set_reg(None);
+                            self.push(format!(".ret (.oldPlus {k})"), e.span());
+                            return Ok(self.rows);
+                        }
+                    }
+                    let r = self.ret(e)?;
+                    self.push(format!(".ret {r}"), e.span());
+                    return Ok(self.rows);
+                }
+                _ => return self.bad("statement", s.span()),
+            }
+        }
+        self.bad("body without a final value", b.span())
+    }
+}
+
+/// `Self(AtomicUsize::new(<lit>))`
+fn one(f: &SrcFile, b: &Block) -> R<(u64, String)> {
+    let bad = |sp: Span| Err(format!("Gen/Atomics: unsupported body of `one` at {}", loc(f, sp)));
+    let [Stmt::Expr(Expr::Call(c), None)] = &b.stmts[..] else { return bad(b.span()) };
+    let inner = match (ident_of(&c.func).as_deref(), c.args.first(), c.args.len()) {
+        (Some("Self"), Some(Expr::Call(i)), 1) if c.attrs.is_empty() && i.attrs.is_empty() => i,
+        _ => return bad(c.span()),
+    };
+    match (last2(&inner.func), inner.args.first().and_then(int), inner.args.len()) {
+        (Some((t, n)), Some(v), 1) if t == "AtomicUsize" && n == "new" => Ok((v, loc(f, c.span()))),
+        _ => bad(c.span()),
+    }
+}
+
+/// The trait default `fn is_unique(&self) -> bool { self.get() == 1 }` with `get` inlined.
+fn default_is_unique(f: &SrcFile, get: &[Row]) -> R<(String, Vec<Row>)> {
+    let err = |what: &str, sp: Span| Err(format!("Gen/Atomics: unsupported {what} at {}", loc(f, sp)));
+    let traits: Vec<_> = f.ast.items.iter().filter_map(|i| match i {
+        Item::Trait(t) if t.ident == "Kind" => Some(t),
+        _ => None,
+    }).collect();
+    let [t] = &traits[..] else { return Err(format!("Gen/Atomics: expected exactly one `trait Kind` in {FILE}, found {}", traits.len())) };
+    let fns: Vec<_> = t.items.iter().filter_map(|i| match i {
+        TraitItem::Fn(m) if m.sig.ident == "is_unique" => Some(m),
+        _ => None,
+    }).collect();
+    let [m] = &fns[..] else { return err("trait `Kind` (no unique `is_unique`)", t.trait_token.span) };
+    let Some(b) = &m.default else { return err("`is_unique`: neither overridden nor defaulted", m.sig.fn_token.span) };
+    let e = match &b.stmts[..] {
+        [Stmt::Expr(e, None)] => e,
+        _ => return err("default body of `is_unique`", b.span()),
+    };
+    let shape_ok = matches!(bin(e), Some((Expr::MethodCall(mc), BinOp::Eq(_), r))
+        if mc.attrs.is_empty() && mc.turbofish.is_none() && mc.args.is_empty() && mc.method == "get"
+            && ident_of(&mc.receiver).as_deref() == Some("self") && int(r) == Some(1));
+    if !shape_ok {
+        return err("default body of `is_unique`", e.span());
+    }
+    let k = get.split_last().and_then(|(l, init)| {
+        let k: u64 = l.text.strip_prefix(".ret (.oldPlus ")?.strip_suffix(')')?.parse().ok()?;
+        (k <= 1).then_some((k, init))
+    });
+    let Some((k, init)) = k else { return err("shape of `get` for the default `is_unique`", e.span()) };
+    let mut rows: Vec<Row> = init.iter().map(|r| Row { text: r.text.clone(), loc: r.loc.clone() }).collect();
+    rows.push(Row { text: format!(".branch .eq (.lit {}) [] (.bool true) [] (.bool false)", 1 - k), loc: loc(f, e.span()) });
+    Ok((loc(f, m.sig.fn_token.span), rows))
+}
+
+fn is_kind_for_arc(im: &ItemImpl) -> bool {
+    let tr = matches!(&im.trait_, Some((None, p, _)) if p.segments.last().map_or(false, |s| s.ident == "Kind"));
+    tr && matches!(&*im.self_ty, syn::Type::Path(t) if t.qself.is_none() && t.path.is_ident("Arc"))
+}
+
+enum Def {
+    One(u64, String),
+    Steps(Vec<Row>),
+}
+
+pub fn generate(repo: &Repo) -> R<Vec<GenFile>> {
+    let f = repo.file(FILE)?;
+    let impls: Vec<&ItemImpl> = f.ast.items.iter().filter_map(|i| match i {
+        Item::Impl(im) if is_kind_for_arc(im) => Some(im),
+        _ => None,
+    }).collect();
+    let [im] = &impls[..] else { return Err(format!("Gen/Atomics: expected exactly one `impl Kind for Arc` in {FILE}, found {}", impls.len())) };
+
+    // (rust name, doc text, fn location, definition), in source order
+    let mut defs: Vec<(String, String, String, Def)> = vec![];
+    let mut hooks: Vec<(String, String)> = vec![];
+    for item in &im.items {
+        let ImplItem::Fn(m) = item else { return Err(format!("Gen/Atomics: unsupported impl item at {}", loc(f, item.span()))) };
+        let (name, at) = (m.sig.ident.to_string(), loc(f, m.sig.fn_token.span));
+        let mut hook = false;
+        for a in &m.attrs {
+            let cfg_hook = a.path().is_ident("cfg") && a.meta.require_list().map_or(false, |l| l.tokens.to_string() == "hipstr_verif");
+            hook |= cfg_hook;
+            if !cfg_hook && !["inline", "doc", "allow", "must_use"].iter().any(|k| a.path().is_ident(k)) {
+                return Err(format!("Gen/Atomics: unsupported attribute on `{name}` at {}", loc(f, a.span())));
+            }
+        }
+        if defs.iter().any(|d| d.0 == name) || hooks.iter().any(|h| h.0 == name) {
+            return Err(format!("Gen/Atomics: unsupported duplicate method `{name}` at {at}"));
+        }
+        if hook {
+            hooks.push((name, at));
+            continue;
+        }
+        let self_only = m.sig.inputs.len() == 1 && matches!(&m.sig.inputs[0], syn::FnArg::Receiver(r) if r.reference.is_some() && r.mutability.is_none());
+        let def = match name.as_str() {
+            "one" if m.sig.inputs.is_empty() => {
+                let (v, at) = one(f, &m.block)?;
+                Def::One(v, at)
+            }
+            "decr" | "incr" | "get" | "is_unique" if self_only => Def::Steps(Cx::new(f).body(&m.block)?),
+            _ => return Err(format!("Gen/Atomics: unsupported method `{name}` at {at}")),
+        };
+        let doc = format!("`Arc::{name}` ({at})");
+        defs.push((name, doc, at, def));
+    }
+    for need in ["one", "decr", "incr", "get"] {
+        if !defs.iter().any(|d| d.0 == need) {
+            return Err(format!("Gen/Atomics: unsupported impl: method `{need}` missing at {}", loc(f, im.impl_token.span)));
+        }
+    }
+    if !defs.iter().any(|d| d.0 == "is_unique") {
+        let get = defs.iter().find_map(|d| match (&d.0[..], &d.3) {
+            ("get", Def::Steps(r)) => Some(r),
+            _ => None,
+        });
+        let (at, rows) = default_is_unique(f, get.unwrap())?;
+        let doc = format!("`Arc::is_unique` (not overridden: default of `trait Kind` at {at}, with `Arc::get` inlined)");
+        defs.push(("is_unique".into(), doc, at, Def::Steps(rows)));
+    }
+
+    let mut o = String::from(HEADER);
+    o += "import HipVerif.Model.AtomicsTy\n\n";
+    o += &format!("/-! Atomic counter protocol: `impl Kind for Arc` at {}.\n", loc(f, im.impl_token.span));
+    o += "One list of `AStep` per method, in source statement order; the trailing comment of every\n";
+    o += "row is the source line it was read from. -/\n\n";
+    o += "namespace HipVerif.Gen.Atomics\nopen HipVerif.Model\n\n";
+    // rows: (text, trailing comment); `,` after every row but the last
+    let table = |o: &mut String, rows: Vec<(String, String)>| {
+        let n = rows.len();
+        for (i, (text, comment)) in rows.into_iter().enumerate() {
+            *o += &format!("  {text}{}{comment}\n", if i + 1 < n { "," } else { "" });
+        }
+        *o += "]\n\n";
+    };
+    for (name, doc, _, def) in &defs {
+        match def {
+            Def::One(v, at) => o += &format!("/-- {doc}: the value the counter is created with. -/\ndef one : Nat := {v}  -- {at}\n\n"),
+            Def::Steps(rows) => {
+                let lean = if name == "is_unique" { "isUnique" } else { name };
+                o += &format!("/-- {doc}. -/\ndef {lean} : List AStep := [\n");
+                table(&mut o, rows.iter().map(|r| (r.text.clone(), format!("  -- {}", r.loc))).collect());
+            }
+        }
+    }
+    o += "/-- The protocol description interpreted by `Model/Conc.lean`. -/\n";
+    o += "def proto : Proto := { decr := decr, incr := incr, isUnique := isUnique, get := get }\n\n";
+    o += "/-- Source location of every translated method. -/\ndef sources : List (String × String) := [\n";
+    table(&mut o, defs.iter().map(|d| (format!("(\"{}\", \"{}\")", d.0, d.2), String::new())).collect());
+    o += "/-- Methods of the impl that are `#[cfg(hipstr_verif)]` hooks and are not part of the protocol. -/\n";
+    o += "def hooks : List (String × String) := [\n";
+    table(&mut o, hooks.iter().map(|h| (format!("(\"{}\", \"{}\")", h.0, h.1), String::new())).collect());
+    o += "end HipVerif.Gen.Atomics\n";
+    Ok(vec![GenFile { name: "Atomics.lean".into(), content: o }])
 }
